@@ -431,7 +431,8 @@ def run(ctx):
         sec = xb((d * E.G).sec(len(m) % 2 == 0))
         lines.append(("verifymsg:valid", f"verifymsg {sec} {xb(m)} {r} {sv}", True))
         lines.append(("verifymsg:other_message", f"verifymsg {sec} {xb(m + b'!')} {r} {sv}", True))
-        lines.append(("verifymsg:other_message", f"verifymsg {sec} {xb(b'\x00' + m)} {r} {sv}", True))
+        m0 = bytes(1) + m
+        lines.append(("verifymsg:other_message", f"verifymsg {sec} {xb(m0)} {r} {sv}", True))
         lines.append(("verifymsg:s+n", f"verifymsg {sec} {xb(m)} {r} {int(sv) + N}", True))
         lines.append(("verifymsg:digest_as_message", f"verifymsg {sec} {xb(z.to_bytes(32, 'big'))} {r} {sv}", True))
         preds.append(("msg_sign_verify", {"d": d, "m": xb(m)}))
